@@ -22,6 +22,16 @@
 //!            warm=pool: chain A never commits T, T is submitted to the tx-pool at A's tip (the pool fills the cache)
 //!   scn pool tx=<absnum|relnum|absep> el=.. cl=.. far=.. t=<tip height> st=<fresh|gap|prop> d=<delta>
 //!            cu=<height creating the spent cell | 0>
+//!   scn blk tx=relts ... r28=<epoch number from which RFC 28 is active>: relative TIMESTAMP since on the cell created at
+//!            height cu; timestamps as for absts; base = timestamp of block cu when the commit epoch number >= r28, else the
+//!            median time of block cu's parent; since value (s) = (median time at B's commit - base)/1000 + d
+//!   scn hdep el=.. cl=.. far=.. f=<fork height> h1=.. h2=.. hd=<g|c|a|x>: T carries ONE header dep: genesis / the fork
+//!            block / block f+1 of chain A / a block no node ever receives; T is proposed at f+2 on A and f+1 on B and
+//!            committed at h1 / h2; plus tx-pool checks (test_accept_tx) at A's tip and, after the reorg, at B's tip with
+//!            header deps = tip, A[f+1], B[f+1], genesis. Lines: `hdep <header ids>` -> ok | invalid-header <id>
+//!   scn padm k=<fee|size|blk|cb|decl|dup|cap> rate=<min_fee_rate> d=<delta> nout=<outputs> wl=<witness bytes>:
+//!            tx-pool admission through test_accept_tx / submit_local_tx / submit_remote_tx (declared cycles) on a node
+//!            with that min_fee_rate. Lines: `padm ...` (see Driver/C04.lean stepPadm)
 use crate::common::*;
 use crate::node::*;
 use ckb_chain_spec::consensus::Consensus;
@@ -80,15 +90,26 @@ struct Scn {
     dp: u64,
     t: u64,
     st: String,
+    r28: u64,
+    hd: String,
+    k: String,
+    rate: u64,
+    nout: u64,
+    wl: u64,
 }
 
 impl Scn {
     fn line(&self) -> String {
         if self.kind == "blk" {
-            format!(
+            let base = format!(
                 "scn blk tx={} warm={} el={} cl={} far={} mat={} f={} p={} h1={} h2={} d={} cu={} dp={}",
                 self.tx, self.warm, self.el, self.cl, self.far, self.mat, self.f, self.p, self.h1, self.h2, self.d, self.cu, self.dp
-            )
+            );
+            if self.tx == "relts" { format!("{base} r28={}", self.r28) } else { base }
+        } else if self.kind == "hdep" {
+            format!("scn hdep el={} cl={} far={} f={} h1={} h2={} hd={}", self.el, self.cl, self.far, self.f, self.h1, self.h2, self.hd)
+        } else if self.kind == "padm" {
+            format!("scn padm k={} rate={} d={} nout={} wl={}", self.k, self.rate, self.d, self.nout, self.wl)
         } else {
             format!("scn pool tx={} el={} cl={} far={} t={} st={} d={} cu={}", self.tx, self.el, self.cl, self.far, self.t, self.st, self.d, self.cu)
         }
@@ -98,7 +119,7 @@ impl Scn {
         let t: Vec<&str> = line.split(' ').collect();
         assert!(t.len() >= 3 && t[0] == "scn", "node: bad scn line {line:?}");
         let mut s = Scn { kind: t[1].to_string(), ..Default::default() };
-        assert!(s.kind == "blk" || s.kind == "pool", "node: bad scn kind {line:?}");
+        assert!(matches!(s.kind.as_str(), "blk" | "pool" | "hdep" | "padm"), "node: bad scn kind {line:?}");
         for kv in &t[2..] {
             let (k, v) = kv.split_once('=').unwrap_or_else(|| panic!("node: bad scn token {kv:?}"));
             let num = || -> u64 { v.parse().unwrap_or_else(|_| panic!("node: bad number in {kv:?}")) };
@@ -117,6 +138,12 @@ impl Scn {
                 "cu" => s.cu = num(),
                 "dp" => s.dp = num(),
                 "t" => s.t = num(),
+                "r28" => s.r28 = num(),
+                "hd" => s.hd = v.to_string(),
+                "k" => s.k = v.to_string(),
+                "rate" => s.rate = num(),
+                "nout" => s.nout = num(),
+                "wl" => s.wl = num(),
                 "d" => s.d = v.parse().unwrap_or_else(|_| panic!("node: bad delta {kv:?}")),
                 _ => panic!("node: unknown scn key {kv:?}"),
             }
@@ -136,19 +163,51 @@ impl Scn {
     /// feasibility of the scenario (used by the generator as a filter and by exec as a guard)
     fn check(&self) -> Result<(), String> {
         let e = |m: &str| Err(m.to_string());
+        if self.kind == "padm" {
+            if !matches!(self.k.as_str(), "fee" | "size" | "blk" | "cb" | "decl" | "dup" | "cap") || !(-1..=1).contains(&self.d) || self.nout > 3 || self.wl > 4096 {
+                return e("padm");
+            }
+            if self.nout == 0 && self.k != "cb" {
+                return e("padm nout");
+            }
+            return Ok(());
+        }
+        if self.kind == "hdep" {
+            if !(1..=3).contains(&self.cl) || self.far < self.cl || self.far > 12 || !(2..=12).contains(&self.el) || self.f < 1 {
+                return e("cfg");
+            }
+            if !matches!(self.hd.as_str(), "g" | "c" | "a" | "x") {
+                return e("hd");
+            }
+            if self.h1 < self.f + 2 + self.cl || self.h1 > self.f + 2 + self.far || self.h2 < self.f + 1 + self.cl || self.h2 > self.f + 1 + self.far {
+                return e("window");
+            }
+            if self.h1.max(self.h2) > 14 {
+                return e("too long");
+            }
+            // the block committing T on B is B's last block (the builder cannot extend a block whose
+            // transactions do not resolve), and B must be longer than A
+            if self.hd != "x" && self.h1 >= self.h2 {
+                return e("h1 < h2");
+            }
+            return Ok(());
+        }
         if !(1..=3).contains(&self.cl) || self.far < self.cl || self.far > 12 || !(2..=12).contains(&self.el) || self.mat > 3 {
             return e("cfg");
         }
         if !(-1..=1).contains(&self.d) {
             return e("delta");
         }
-        let spends_created = matches!(self.tx.as_str(), "relnum" | "relep");
+        let spends_created = matches!(self.tx.as_str(), "relnum" | "relep" | "relts");
         if spends_created != (self.cu != 0) {
             return e("cu");
         }
         if self.kind == "blk" {
-            if !matches!(self.tx.as_str(), "absnum" | "relnum" | "absep" | "relep" | "depcb" | "absts") {
+            if !matches!(self.tx.as_str(), "absnum" | "relnum" | "absep" | "relep" | "depcb" | "absts" | "relts") {
                 return e("tx kind");
+            }
+            if self.tx != "relts" && self.r28 != 0 {
+                return e("r28 only for relts");
             }
             if !matches!(self.warm.as_str(), "block" | "pool") {
                 return e("warm");
@@ -165,13 +224,16 @@ impl Scn {
             if self.tx == "absts" && (self.warm != "block" || self.h2 < 2 || self.absts_v() < 1) {
                 return e("absts");
             }
+            if self.tx == "relts" && (self.warm != "block" || self.h2 < 2 || self.cu < 1 + self.cl || self.cu > self.f || self.relts_v() < 0) {
+                return e("relts");
+            }
             if !self.expect_blk('A', self.h1) {
                 return e("h1 must be valid");
             }
             if self.h1.max(self.h2) > 14 {
                 return e("too long");
             }
-            if spends_created {
+            if spends_created && self.tx != "relts" {
                 // U proposed at cu-cl (>= 1), committed at cu <= f; relative value k = th - cu >= 0
                 if self.cu < 1 + self.cl || self.cu > self.f || th < self.cu as i64 {
                     return e("cu range");
@@ -231,8 +293,28 @@ impl Scn {
         (self.ts_of('B', self.h2 / 2) / 1000) as i64 + self.d
     }
 
+    /// relts: is RFC 28 active for a commit at height h (commit epoch number = h / el)
+    fn rfc28_active(&self, h: u64) -> bool {
+        h / self.el >= self.r28
+    }
+
+    /// relts: the base timestamp (ms) of the spent cell (created at height cu <= f) for a commit at height h:
+    /// the block's own timestamp under RFC 28, else the median time of its parent = over heights cu-1..0,
+    /// i.e. the timestamp at height cu/2
+    fn relts_base(&self, h: u64) -> u64 {
+        if self.rfc28_active(h) { self.ts_of('A', self.cu) } else { self.ts_of('A', self.cu / 2) }
+    }
+
+    /// relts: the since value in seconds, threshold at B's commit height
+    fn relts_v(&self) -> i64 {
+        (self.ts_of('B', self.h2 / 2) as i64 - self.relts_base(self.h2) as i64) / 1000 + self.d
+    }
+
     /// blk scenarios: must a block at height h of branch A|B that commits T be accepted?
     fn expect_blk(&self, branch: char, h: u64) -> bool {
+        if self.tx == "relts" {
+            return self.ts_of(branch, h / 2) as i64 >= self.relts_base(h) as i64 + self.relts_v() * 1000;
+        }
         if self.tx == "absts" {
             self.ts_of(branch, h / 2) as i64 >= self.absts_v() * 1000
         } else {
@@ -533,10 +615,14 @@ fn build_blk(s: &Scn, consensus: &Consensus, builder: &mut ChainBuilder) -> Chai
                 mk_tx(&(OutPoint::new(u.hash(), 0), cap_of(u, 0)), since_for(&s.tx, th, s.cu, s.el), vec![asd.clone()], 1)
             }
             "absts" => mk_tx(&cells[0], M_TS | s.absts_v() as u64, vec![asd.clone()], 1),
+            "relts" => {
+                let u = u.as_ref().unwrap();
+                mk_tx(&(OutPoint::new(u.hash(), 0), cap_of(u, 0)), REL | M_TS | s.relts_v() as u64, vec![asd.clone()], 1)
+            }
             k => mk_tx(&cells[0], since_for(k, th, 0, s.el), vec![asd.clone()], 1),
         }
     };
-    let absts = s.tx == "absts";
+    let absts = s.tx == "absts" || s.tx == "relts";
     for n in 1..=s.f {
         let mut spec = BlockSpec { salt: n, ..Default::default() };
         if absts {
@@ -583,13 +669,23 @@ fn build_blk(s: &Scn, consensus: &Consensus, builder: &mut ChainBuilder) -> Chai
 }
 
 fn absts_check(s: &Scn) -> bool {
-    s.tx == "absts"
+    s.tx == "absts" || s.tx == "relts"
+}
+
+/// the scenario's consensus: `make_consensus` with the RFC 28 switch of a relts scenario
+fn scn_consensus(s: &Scn, cfg: &NodeCfg) -> Consensus {
+    let mut c = make_consensus(cfg);
+    if s.tx == "relts" {
+        let ckb2021 = c.hardfork_switch.ckb2021.as_builder().rfc_0028(s.r28).build().expect("ckb2021 switch");
+        c.hardfork_switch = ckb_types::core::hardfork::HardForks { ckb2021, ckb2023: c.hardfork_switch.ckb2023.clone() };
+    }
+    c
 }
 
 fn run_blk(s: &Scn, out: &mut Out) {
     let dir = case_dir();
     let cfg = NodeCfg { epoch_len: s.el, window: (s.cl, s.far), genesis_cells: 3, maturity_epochs: s.mat, with_pool: false, tx_pool: None };
-    let consensus = make_consensus(&cfg);
+    let consensus = scn_consensus(s, &cfg);
     let mut builder = ChainBuilder::new(consensus.clone(), &dir.join("builder"));
     let ch = build_blk(s, &consensus, &mut builder);
     let mut ids = Ids::new();
@@ -857,6 +953,500 @@ fn run_pool(s: &Scn, out: &mut Out) {
 }
 
 // ------------------------------------------------------------------------------------------------
+// header-dep scenarios
+// ------------------------------------------------------------------------------------------------
+
+const UNKNOWN_HDR_ID: u64 = 9999;
+
+fn hdep_tx(input: &(OutPoint, u64), hd: &Byte32, salt: u64) -> TransactionView {
+    let t = mk_tx(input, 0, vec![always_success_dep()], salt);
+    t.as_advanced_builder().header_dep(hd.clone()).build()
+}
+
+fn hdr_id(ids: &Ids, h: &Byte32) -> u64 {
+    ids.map.get(h).copied().unwrap_or(UNKNOWN_HDR_ID)
+}
+
+fn resolve_class(e: &ckb_types::core::error::OutPointError, ids: &Ids) -> String {
+    match e {
+        ckb_types::core::error::OutPointError::InvalidHeader(h) => format!("invalid-header {}", hdr_id(ids, h)),
+        other => panic!("node: hdep scenario tx failed to resolve for another reason: {other}"),
+    }
+}
+
+/// the real `resolve_transaction` over the snapshot (cell provider AND header checker)
+fn direct_resolve(snap: &Arc<Snapshot>, tx: &TransactionView, ids: &Ids) -> String {
+    let mut seen = HashSet::new();
+    match resolve_transaction(tx.clone(), &mut seen, snap.as_ref(), snap.as_ref()) {
+        Ok(_) => "ok".to_string(),
+        Err(e) => resolve_class(&e, ids),
+    }
+}
+
+fn hdep_block_class(text: &str, want: &Byte32, ids: &Ids) -> String {
+    assert!(text.contains("InvalidHeader"), "node: unexpected block error in a header-dep scenario: {text}");
+    let hex = format!("{want}");
+    let hex = hex.trim_start_matches("Byte32(").trim_end_matches(')').trim_start_matches("0x").to_string();
+    if hex.len() == 64 {
+        assert!(text.contains(&hex), "node: InvalidHeader names another header: {text}");
+    }
+    format!("invalid-header {}", hdr_id(ids, want))
+}
+
+fn hdep_rec(s: &Scn, out: &mut Out, path: &str, env: &str, line: &str, ans: &str) {
+    out.op(env, "ok");
+    out.op(line, ans);
+    out.count(&format!("verdict:{}", ans.split(' ').next().unwrap()));
+    out.count(&format!("path:{path}"));
+    out.nontrivial(format!("hdep/{}/{}/{}/{}", s.hd, path, env.split(' ').nth(1).unwrap_or(""), ans.split(' ').next().unwrap()));
+}
+
+fn run_hdep(s: &Scn, out: &mut Out) {
+    let dir = case_dir();
+    let cfg = NodeCfg { epoch_len: s.el, window: (s.cl, s.far), genesis_cells: 3, maturity_epochs: 0, with_pool: false, tx_pool: None };
+    let consensus = make_consensus(&cfg);
+    let mut builder = ChainBuilder::new(consensus.clone(), &dir.join("builder"));
+    let cells = genesis_cells(&consensus);
+    let genesis = consensus.genesis_hash();
+    // common chain 1..=f
+    let mut common: Vec<BlockView> = vec![];
+    let mut tip = genesis.clone();
+    for n in 1..=s.f {
+        let b = builder.build(&tip, &BlockSpec { salt: n, ..Default::default() });
+        tip = b.hash();
+        common.push(b);
+    }
+    let fork = tip.clone();
+    // A[f+1] first (a candidate header dep), and a block nobody receives
+    let a1 = builder.build(&fork, &BlockSpec { salt: 100 + s.f + 1, ..Default::default() });
+    let orphan = builder.build(&fork, &BlockSpec { salt: 900, ..Default::default() });
+    let hd_hash = match s.hd.as_str() {
+        "g" => genesis.clone(),
+        "c" => fork.clone(),
+        "a" => a1.hash(),
+        _ => orphan.hash(),
+    };
+    let t = hdep_tx(&cells[0], &hd_hash, 1);
+    // an unresolvable commit block is the last block of its branch
+    let la = if s.hd == "x" { s.h1 } else { s.h2 - 1 };
+    let lb = s.h2;
+    let mut a = vec![a1.clone()];
+    let mut tip_a = a1.hash();
+    for n in s.f + 2..=la {
+        let mut spec = BlockSpec { salt: 100 + n, ..Default::default() };
+        if n == s.f + 2 {
+            spec.proposals.push(t.proposal_short_id());
+        }
+        if n == s.h1 {
+            spec.txs.push(t.clone());
+        }
+        let b = builder.build(&tip_a, &spec);
+        tip_a = b.hash();
+        a.push(b);
+    }
+    let mut b_chain = vec![];
+    let mut tip_b = fork.clone();
+    for n in s.f + 1..=lb {
+        let mut spec = BlockSpec { salt: 200 + n, ..Default::default() };
+        if n == s.f + 1 {
+            spec.proposals.push(t.proposal_short_id());
+        }
+        if n == s.h2 {
+            spec.txs.push(t.clone());
+        }
+        let b = builder.build(&tip_b, &spec);
+        tip_b = b.hash();
+        b_chain.push(b);
+    }
+    let mut ids = Ids::new();
+    ids.add(&consensus.genesis_block().header());
+    for b in common.iter().chain(a.iter()).chain(b_chain.iter()) {
+        ids.add(&b.header());
+    }
+    out.op(&s.line(), "ok");
+    emit_cfg(&consensus, out);
+    ids.emit(out, s.el);
+    let line_t = format!("hdep {}", hdr_id(&ids, &hd_hash));
+    let exp_a = s.hd != "x";
+    let exp_b = matches!(s.hd.as_str(), "g" | "c");
+    // pool-side transactions (never committed): header dep = the tip at submission / A[f+1] / B[f+1] / genesis
+    let b1 = b_chain[0].hash();
+    let pool_variants = |tip: &Byte32| -> Vec<(&'static str, Byte32)> { vec![("tip", tip.clone()), ("a1", a1.hash()), ("b1", b1.clone()), ("g", genesis.clone())] };
+    let pool_checks = |node: &Node, tip: &HeaderView, on_a: bool, salt0: u64, out: &mut Out| {
+        let tpc = node.shared.tx_pool_controller().clone();
+        wait_pool_tip(&tpc, &tip.hash());
+        let snap = node.shared.cloned_snapshot();
+        assert_eq!(snap.tip_hash(), tip.hash());
+        let env_line = format!("env s 0 {}", ids.id(&tip.hash()));
+        for (k, (name, h)) in pool_variants(&tip.hash()).into_iter().enumerate() {
+            let t2 = hdep_tx(&cells[1], &h, salt0 + k as u64);
+            let line = format!("hdep {}", hdr_id(&ids, &h));
+            let d = direct_resolve(&snap, &t2, &ids);
+            let p = match tpc.test_accept_tx(t2.clone()).expect("pool service alive") {
+                Ok(_) => "ok".to_string(),
+                Err(Reject::Resolve(e)) => resolve_class(&e, &ids),
+                Err(other) => panic!("node: pool rejected a header-dep scenario tx for another reason: {other}"),
+            };
+            if d != p {
+                out.oracle_fail("pool-vs-direct", &format!("header dep {name}: direct={d} pool={p} {}", s.line()));
+            }
+            let expected = match name { "tip" | "g" => true, "a1" => on_a, _ => !on_a };
+            expect_oracle(out, "direct", expected, &d, &format!("header dep {name} in the pool (on_a={on_a}) {}", s.line()));
+            expect_oracle(out, "node", expected, &p, &format!("header dep {name} in the pool (on_a={on_a}) {}", s.line()));
+            hdep_rec(s, out, "direct", &env_line, &line, &d);
+            hdep_rec(s, out, "pool-test", &env_line, &line, &p);
+        }
+    };
+
+    // ---- history 1: chain A first (T committed and its verification cached when valid), then fork B
+    let cfg1 = NodeCfg { with_pool: true, ..cfg.clone() };
+    let node1 = Node::start(&dir.join("node1"), consensus.clone(), &cfg1);
+    for b in &common {
+        assert_eq!(node1.process(b), Ok(true), "node: common block {} rejected", b.number());
+    }
+    let mut a_ok = true;
+    for b in &a {
+        if b.number() == s.h1 {
+            let snap = node1.shared.cloned_snapshot();
+            assert_eq!(snap.tip_hash(), b.parent_hash());
+            let env = format!("env c 0 {}", ids.id(&b.hash()));
+            let d = direct_resolve(&snap, &t, &ids);
+            let n = match node1.process(b) {
+                Ok(_) => "ok".to_string(),
+                Err(e) => hdep_block_class(&e, &hd_hash, &ids),
+            };
+            if d != n {
+                out.oracle_fail("block-vs-direct", &format!("chain A: direct={d} node={n} {}", s.line()));
+            }
+            expect_oracle(out, "direct", exp_a, &d, &format!("chain A {}", s.line()));
+            expect_oracle(out, "node", exp_a, &n, &format!("chain A {}", s.line()));
+            hdep_rec(s, out, "direct", &env, &line_t, &d);
+            hdep_rec(s, out, "block-A", &env, &line_t, &n);
+            a_ok = n == "ok";
+            if !a_ok {
+                break;
+            }
+        } else {
+            assert_eq!(node1.process(b), Ok(true), "node: chain A block {} rejected", b.number());
+        }
+    }
+    let mut n_b1: Option<String> = None;
+    if a_ok {
+        assert_eq!(node1.tip_hash(), a.last().unwrap().hash());
+        if wait_cached(&node1, &t) {
+            out.count("cache:entry-present-before-fork");
+        } else {
+            out.count("cache:entry-missing");
+        }
+        pool_checks(&node1, &a.last().unwrap().header(), true, 1000, out);
+        let mut v = "ok".to_string();
+        for b in &b_chain {
+            match node1.process(b) {
+                Ok(_) => {}
+                Err(e) => {
+                    v = hdep_block_class(&e, &hd_hash, &ids);
+                    break;
+                }
+            }
+        }
+        if v == "ok" {
+            assert_eq!(node1.tip_hash(), b_chain.last().unwrap().hash(), "node: fork B accepted but not adopted");
+            pool_checks(&node1, &b_chain.last().unwrap().header(), false, 2000, out);
+        } else {
+            assert_eq!(node1.tip_hash(), a.last().unwrap().hash(), "node: fork B rejected but tip moved");
+        }
+        n_b1 = Some(v);
+    }
+    node1.stop();
+
+    // ---- history 2: a fresh node that only ever sees chain B
+    let node2 = Node::start(&dir.join("node2"), consensus.clone(), &cfg);
+    for b in &common {
+        assert_eq!(node2.process(b), Ok(true));
+    }
+    let env_b = format!("env c 0 {}", ids.id(&b_chain[(s.h2 - s.f - 1) as usize].hash()));
+    let mut d_b = String::new();
+    let mut n_b2 = String::new();
+    for b in &b_chain {
+        if b.number() == s.h2 {
+            let snap = node2.shared.cloned_snapshot();
+            assert_eq!(snap.tip_hash(), b.parent_hash());
+            d_b = direct_resolve(&snap, &t, &ids);
+            n_b2 = match node2.process(b) {
+                Ok(_) => "ok".to_string(),
+                Err(e) => hdep_block_class(&e, &hd_hash, &ids),
+            };
+            if n_b2 != "ok" {
+                break;
+            }
+        } else {
+            assert_eq!(node2.process(b), Ok(true), "node: chain B block {} rejected on the fresh node", b.number());
+        }
+    }
+    node2.stop();
+    if let Some(v) = &n_b1 {
+        hdep_rec(s, out, "block-cached", &env_b, &line_t, v);
+        if *v != n_b2 {
+            out.oracle_fail("history-dependence", &format!("after-chain-A(cached)={v} fresh-node={n_b2} {}", s.line()));
+        }
+        expect_oracle(out, "node", exp_b, v, &format!("chain B after A (cached) {}", s.line()));
+    }
+    hdep_rec(s, out, "direct", &env_b, &line_t, &d_b);
+    hdep_rec(s, out, "block-fresh", &env_b, &line_t, &n_b2);
+    if d_b != n_b2 {
+        out.oracle_fail("block-vs-direct", &format!("chain B fresh: direct={d_b} node={n_b2} {}", s.line()));
+    }
+    expect_oracle(out, "direct", exp_b, &d_b, &format!("chain B {}", s.line()));
+    expect_oracle(out, "node", exp_b, &n_b2, &format!("chain B fresh {}", s.line()));
+    drop(builder);
+    let _ = std::fs::remove_dir_all(&dir);
+}
+
+// ------------------------------------------------------------------------------------------------
+// tx-pool admission scenarios
+// ------------------------------------------------------------------------------------------------
+
+fn pool_reject_class(r: &Reject) -> String {
+    use ckb_types::core::error::TransactionError as TE;
+    match r {
+        Reject::LowFeeRate(_, min, fee) => format!("low-fee-rate {min} {fee}"),
+        Reject::ExceededTransactionSizeLimit(..) => "nc exceeded-tx-size-limit".into(),
+        Reject::Duplicated(_) => "duplicated".into(),
+        Reject::Malformed(a, _) if a == "cellbase like" => "nc cellbase-like".into(),
+        Reject::Malformed(..) => "malformed-fee".into(),
+        Reject::DeclaredWrongCycles(d, a) => format!("declared-wrong-cycles {d} {a}"),
+        Reject::Resolve(ckb_types::core::error::OutPointError::Unknown(_)) => "resolve unknown 0.4294967295".into(),
+        Reject::Verification(e) => match e.downcast_ref::<TE>() {
+            Some(TE::ExceededMaximumBlockBytes { .. }) => "nc exceeded-max-block-bytes".into(),
+            Some(TE::Empty { .. }) => "nc empty-outputs".into(),
+            Some(TE::InsufficientCellCapacity { index, .. }) => format!("cap insufficient {index}"),
+            Some(TE::OutputsSumOverflow { .. }) => "cap outputs-sum-overflow".into(),
+            _ => {
+                let t = format!("{e:?}");
+                if t.contains("ExceededMaximumCycles") { "exceeded-maximum-cycles".into() } else { panic!("node: padm: unexpected verification error {t}") }
+            }
+        },
+        other => panic!("node: padm: unexpected reject {other}"),
+    }
+}
+
+fn status_text_class(text: &str) -> String {
+    // `Reject` rendered by `recent_reject` (JSON of the Display string): map the Display texts back to classes
+    let num_after = |pat: &str| -> Option<(u64, &str)> {
+        let i = text.find(pat)? + pat.len();
+        let rest = &text[i..];
+        let j = rest.find(|c: char| !c.is_ascii_digit()).unwrap_or(rest.len());
+        Some((rest[..j].parse().ok()?, &rest[j..]))
+    };
+    if let Some((d, rest)) = num_after("Declared wrong cycles ") {
+        let a: u64 = rest.trim_start_matches(", actual ").chars().take_while(|c| c.is_ascii_digit()).collect::<String>().parse().expect("actual cycles");
+        return format!("declared-wrong-cycles {d} {a}");
+    }
+    if text.contains("ExceededMaximumCycles") {
+        return "exceeded-maximum-cycles".into();
+    }
+    panic!("node: padm: unexpected recent-reject text {text}");
+}
+
+fn run_padm(s: &Scn, out: &mut Out) {
+    use ckb_types::core::FeeRate;
+    let dir = case_dir();
+    let tx_pool = ckb_app_config::TxPoolConfig { min_fee_rate: FeeRate::from_u64(s.rate), recent_reject: dir.join("recent_reject"), ..Default::default() };
+    let cfg = NodeCfg { epoch_len: 10, window: (2, 10), genesis_cells: 3, maturity_epochs: 0, with_pool: true, tx_pool: Some(tx_pool) };
+    let consensus = make_consensus(&cfg);
+    let mut builder = ChainBuilder::new(consensus.clone(), &dir.join("builder"));
+    let cells = genesis_cells(&consensus);
+    let node = Node::start(&dir.join("node"), consensus.clone(), &cfg);
+    let mut tip = consensus.genesis_hash();
+    for n in 1..=2u64 {
+        let b = builder.build(&tip, &BlockSpec { salt: n, ..Default::default() });
+        tip = b.hash();
+        assert_eq!(node.process(&b), Ok(true), "node: padm block {n} rejected");
+    }
+    out.op(&s.line(), "ok");
+    let tpc = node.shared.tx_pool_controller().clone();
+    wait_pool_tip(&tpc, &tip);
+    let snap = node.shared.cloned_snapshot();
+    let (_, _, script) = always_success_cell();
+    let max_block_bytes = consensus.max_block_bytes();
+    let max_block_cycles = consensus.max_block_cycles();
+    let limit = ckb_types::core::tx_pool::TRANSACTION_SIZE_LIMIT;
+    let in_cap = cells[0].1;
+    let occ: u64 = 4_100_000_000 + 800_000_000; // capacity field 8 + lock script 33 (no args) bytes, + 8 bytes of data on output 0
+    let cellbase_like = s.k == "cb";
+    let n_wit: usize = if cellbase_like { (1 + s.d) as usize } else { 1 };
+    // builds the scenario transaction with witness length `wl` and fee `fee`
+    let build = |wl: u64, fee: u64, short0: u64| -> TransactionView {
+        let mut b = TransactionBuilder::default().cell_dep(always_success_dep());
+        b = if cellbase_like { b.input(CellInput::new(OutPoint::null(), 0)) } else { b.input(CellInput::new(cells[0].0.clone(), 0)) };
+        let total = in_cap - fee;
+        for i in 0..s.nout {
+            let each = 10_000_000_000u64;
+            let cap = if i == 0 { total - each * (s.nout - 1) - short0 } else { each };
+            let data = if i == 0 { Bytes::from(7u64.to_le_bytes().to_vec()) } else { Bytes::new() };
+            b = b.output(CellOutput::new_builder().capacity(Capacity::shannons(cap)).lock(script.clone()).build()).output_data(data);
+        }
+        for _ in 0..n_wit {
+            b = b.witness(Bytes::from(vec![3u8; wl as usize]).pack());
+        }
+        b.build()
+    };
+    let size_of = |t: &TransactionView| t.data().serialized_size_in_block() as u64;
+    // witness length: as given, or aimed at a size edge
+    let base_size = size_of(&build(0, 1_000_000, 0));
+    let wl = match s.k.as_str() {
+        "size" => (limit as i64 + s.d - base_size as i64) as u64,
+        "blk" => (max_block_bytes as i64 + s.d - base_size as i64) as u64,
+        _ => s.wl,
+    };
+    let size = size_of(&build(wl, 1_000_000, 0));
+    // independent expectation of the minimum fee: floor(rate * size / 1000), saturating at u64
+    let min_fee: u64 = ((s.rate as u128 * size as u128).min(u64::MAX as u128) / 1000) as u64;
+    let ample = min_fee.saturating_add(1_000_000).min(in_cap / 2);
+    let fee = match s.k.as_str() {
+        "fee" => ((min_fee as i128 + s.d as i128).max(0) as u128).min((in_cap / 2) as u128) as u64,
+        _ => ample,
+    };
+    let mut t = build(wl, fee, 0);
+    if s.k == "cap" {
+        // output 0 exactly at / one below / one above its occupied capacity: the rest goes to the fee
+        let target = (occ as i64 + s.d) as u64;
+        let mut b = TransactionBuilder::default().cell_dep(always_success_dep()).input(CellInput::new(cells[0].0.clone(), 0));
+        b = b.output(CellOutput::new_builder().capacity(Capacity::shannons(target)).lock(script.clone()).build()).output_data(Bytes::from(7u64.to_le_bytes().to_vec()));
+        for _ in 1..s.nout {
+            b = b.output(CellOutput::new_builder().capacity(Capacity::shannons(10_000_000_000)).lock(script.clone()).build()).output_data(Bytes::new());
+        }
+        t = b.witness(Bytes::from(vec![3u8; wl as usize]).pack()).build();
+    }
+    assert_eq!(size_of(&t), size, "node: padm size changed with the fee");
+    // ---- the model line
+    let out_caps: Vec<u64> = (0..t.outputs().len()).map(|i| cap_of(&t, i)).collect();
+    let datas: Vec<usize> = t.outputs_data().into_iter().map(|d| d.raw_data().len()).collect();
+    let join = |v: Vec<String>| if v.is_empty() { "-".to_string() } else { v.join(",") };
+    let shape = format!(
+        "{} {} - {} {} {}",
+        if cellbase_like { format!("0.{}", u32::MAX) } else { "1.0".to_string() },
+        "20.0.0",
+        join(out_caps.iter().map(|_| "0.0.n.0".to_string()).collect()),
+        join(datas.iter().map(|d| d.to_string()).collect()),
+        join((0..n_wit).map(|_| wl.to_string()).collect()),
+    );
+    let fee_ins = if cellbase_like { "-".to_string() } else { format!("p{in_cap}") };
+    let caps_s = join(out_caps.iter().map(|c| c.to_string()).collect());
+    // consumed cycles: what the real verifier reports for this transaction on a direct call (an oracle
+    // parameter of the model); 0 when the transaction does not get that far
+    let cycles: u64 = {
+        let mut seen = HashSet::new();
+        match resolve_transaction(t.clone(), &mut seen, snap.as_ref(), snap.as_ref()) {
+            Ok(rtx) => {
+                let env = Arc::new(TxVerifyEnv::new_submit(snap.tip_header()));
+                ContextualTransactionVerifier::new(Arc::new(rtx), snap.cloned_consensus(), snap.as_data_loader(), env)
+                    .verify(max_block_cycles, false)
+                    .map(|c| c.cycles)
+                    .unwrap_or(0)
+            }
+            Err(_) => 0,
+        }
+    };
+    let line = |decl: Option<u64>, in_pool: bool| -> String {
+        format!(
+            "padm {} {} {} {} {} {} 1.0,20.0 {} {} {}",
+            max_block_bytes,
+            s.rate,
+            max_block_cycles,
+            decl.map(|d| d.to_string()).unwrap_or("n".into()),
+            in_pool as u8,
+            cycles,
+            shape,
+            fee_ins,
+            caps_s
+        )
+    };
+    // ---- independent expectation (the property's reading, not the model)
+    let total_out: u128 = out_caps.iter().map(|c| *c as u128).sum();
+    let fee_exact: i128 = in_cap as i128 - total_out as i128;
+    let occ_ok = out_caps.iter().enumerate().all(|(i, c)| *c >= if i == 0 { occ } else { 4_100_000_000 });
+    let spec_ok = |decl: Option<u64>, in_pool: bool| -> bool {
+        size <= max_block_bytes
+            && size <= limit
+            && !(cellbase_like && n_wit == 1)
+            && !cellbase_like // a null input that is not a cellbase does not resolve; without outputs it is `Empty`
+            && !in_pool
+            && fee_exact >= 0
+            && fee_exact as u128 >= min_fee as u128
+            && occ_ok
+            && decl.map(|d| d == cycles).unwrap_or(true)
+    };
+    let record = |path: &'static str, l: String, ans: String, want: bool, out: &mut Out| {
+        let full = format!("{ans} size={size}");
+        out.op(&l, &full);
+        let class = ans.split(' ').take(if ans.starts_with("nc ") || ans.starts_with("cap ") { 2 } else { 1 }).collect::<Vec<_>>().join("-");
+        out.count(&format!("verdict:{class}"));
+        out.count(&format!("path:{path}"));
+        out.nontrivial(format!("padm/{}/{}/d{}/{}", s.k, path, s.d, class));
+        if ans.starts_with("ok") != want {
+            out.oracle_fail(if want { "pool-rejects-valid" } else { "pool-accepts-invalid" }, &format!("path={path} expected_ok={want} got={ans} {} | {l}", s.line()));
+        }
+    };
+    // test_accept_tx
+    let a_test = match tpc.test_accept_tx(t.clone()).expect("pool service alive") {
+        Ok(c) => format!("ok {} {}", c.cycles, c.fee.as_u64()),
+        Err(r) => pool_reject_class(&r),
+    };
+    record("pool-test", line(None, false), a_test.clone(), spec_ok(None, false), out);
+    if s.k == "decl" {
+        // a relayed transaction declaring `cycles + d`
+        let declared = (cycles as i64 + s.d) as u64;
+        let t2 = t.clone();
+        let tp2 = tpc.clone();
+        runtime_handle().block_on(async move { tp2.submit_remote_tx(t2, declared, 7usize.into()).await }).expect("pool service alive");
+        let t0 = Instant::now();
+        let ans = loop {
+            let st = tpc.get_transaction_with_status(t.hash()).expect("pool service alive").expect("transaction with status");
+            match st.tx_status {
+                ckb_types::core::tx_pool::TxStatus::Pending | ckb_types::core::tx_pool::TxStatus::Proposed => {
+                    break format!("ok {} {}", st.cycles.unwrap_or(0), st.fee.map(|f| f.as_u64()).unwrap_or(0));
+                }
+                ckb_types::core::tx_pool::TxStatus::Rejected(text) => break status_text_class(&text),
+                _ => {}
+            }
+            assert!(t0.elapsed() < Duration::from_secs(20), "node: padm: the relayed transaction was neither pooled nor rejected");
+            std::thread::sleep(Duration::from_millis(2));
+        };
+        record("pool-remote", line(Some(declared), false), ans, spec_ok(Some(declared), false), out);
+    } else {
+        let a_sub = match tpc.submit_local_tx(t.clone()).expect("pool service alive") {
+            Ok(()) => {
+                let st = tpc.get_transaction_with_status(t.hash()).expect("pool service alive").expect("transaction with status");
+                format!("ok {} {}", st.cycles.unwrap_or(0), st.fee.map(|f| f.as_u64()).unwrap_or(0))
+            }
+            Err(r) => pool_reject_class(&r),
+        };
+        if a_sub != a_test {
+            out.oracle_fail("pool-submit-vs-test-accept", &format!("test_accept_tx={a_test} submit_local_tx={a_sub} {}", s.line()));
+        }
+        let pooled = a_sub.starts_with("ok");
+        record("pool-submit", line(None, false), a_sub, spec_ok(None, false), out);
+        if s.k == "dup" && pooled {
+            // the same transaction again: `check_txid_collision`
+            let again = match tpc.submit_local_tx(t.clone()).expect("pool service alive") {
+                Ok(()) => "ok 0 0".to_string(),
+                Err(r) => pool_reject_class(&r),
+            };
+            record("pool-submit", line(None, true), again, spec_ok(None, true), out);
+            let again_t = match tpc.test_accept_tx(t.clone()).expect("pool service alive") {
+                Ok(c) => format!("ok {} {}", c.cycles, c.fee.as_u64()),
+                Err(r) => pool_reject_class(&r),
+            };
+            record("pool-test", line(None, true), again_t, spec_ok(None, true), out);
+        }
+    }
+    node.stop();
+    drop(builder);
+    let _ = std::fs::remove_dir_all(&dir);
+}
+
+// ------------------------------------------------------------------------------------------------
 // entry points
 // ------------------------------------------------------------------------------------------------
 
@@ -864,16 +1454,48 @@ pub fn exec_node(lines: &[String], out: &mut Out) {
     let scn = lines.iter().find(|l| l.starts_with("scn ")).unwrap_or_else(|| panic!("node: a case needs a scn line"));
     for l in lines {
         let k = l.split(' ').next().unwrap_or("");
-        assert!(matches!(k, "scn" | "cfg" | "hdr" | "env" | "tx"), "node: bad op {l:?}");
+        assert!(matches!(k, "scn" | "cfg" | "hdr" | "env" | "tx" | "hdep" | "padm"), "node: bad op {l:?}");
     }
     let s = Scn::parse(scn);
-    if s.kind == "blk" { run_blk(&s, out) } else { run_pool(&s, out) }
+    match s.kind.as_str() {
+        "blk" => run_blk(&s, out),
+        "hdep" => run_hdep(&s, out),
+        "padm" => run_padm(&s, out),
+        _ => run_pool(&s, out),
+    }
 }
 
 pub fn gen_node(rng: &mut Rng) -> Vec<String> {
-    let class = rng.below(10); // 0..4 blk/warm=block, 5..6 blk/warm=pool, 7..9 pool
-    let blk_tx = *rng.pick(&["absnum", "absnum", "relnum", "relnum", "absep", "relep", "depcb", "depcb", "absts", "absts"]);
-    let class = if blk_tx == "absts" && (5..7).contains(&class) { 0 } else { class };
+    // 0..4 blk/warm=block, 5..6 blk/warm=pool, 7..9 pool, 10..11 hdep, 12..15 padm
+    let class = rng.below(16);
+    if class >= 12 {
+        let k = *rng.pick(&["fee", "fee", "fee", "size", "blk", "cb", "decl", "decl", "dup", "cap"]);
+        let rate = *rng.pick(&[0u64, 1, 999, 1000, 1000, 1001, 2500, 1_000_000, u64::MAX / 300_000, u64::MAX]);
+        let d = rng.range(0, 2) as i64 - 1;
+        let nout = if k == "cb" { rng.below(3) } else { rng.range(1, 3) };
+        let wl = *rng.pick(&[0u64, 1, 65, 250, 999, 1000, 4096]);
+        let s = Scn { kind: "padm".into(), k: k.into(), rate, d, nout, wl, ..Default::default() };
+        s.check().expect("padm scenario");
+        return vec![s.line()];
+    }
+    if class >= 10 {
+        for _ in 0..1_000_000 {
+            let cl = rng.range(1, 3);
+            let far = rng.range(cl + 2, cl + 5);
+            let el = rng.range(3, 8);
+            let f = rng.range(1, 5);
+            let h1 = rng.range(f + 2 + cl, f + 2 + far);
+            let h2 = rng.range(f + 1 + cl, f + 1 + far);
+            let hd = *rng.pick(&["g", "c", "a", "a", "x"]);
+            let s = Scn { kind: "hdep".into(), el, cl, far, f, h1, h2, hd: hd.into(), ..Default::default() };
+            if s.check().is_ok() {
+                return vec![s.line()];
+            }
+        }
+        panic!("node: generator found no feasible hdep scenario");
+    }
+    let blk_tx = *rng.pick(&["absnum", "absnum", "relnum", "relnum", "absep", "relep", "depcb", "depcb", "absts", "absts", "relts", "relts", "relts"]);
+    let class = if matches!(blk_tx, "absts" | "relts") && (5..7).contains(&class) { 0 } else { class };
     let pool_tx = *rng.pick(&["absnum", "absnum", "relnum", "absep"]);
     let d = rng.range(0, 2) as i64 - 1;
     for _ in 0..1_000_000 {
@@ -885,10 +1507,12 @@ pub fn gen_node(rng: &mut Rng) -> Vec<String> {
             let p = rng.range(1, f);
             let h2 = rng.range(f + 1, 13);
             let h1 = rng.range(f + 1, 14);
-            let cu = if matches!(tx, "relnum" | "relep") { rng.range(1 + cl, f.max(1 + cl)) } else { 0 };
+            let cu = if matches!(tx, "relnum" | "relep" | "relts") { rng.range(1 + cl, f.max(1 + cl)) } else { 0 };
             let dp = if tx == "depcb" { rng.below(2) } else { 0 };
             let warm = if class < 5 { "block" } else { "pool" };
-            Scn { kind: "blk".into(), tx: tx.into(), warm: warm.into(), el, cl, far, mat, f, p, h1, h2, d, cu, dp, ..Default::default() }
+            // RFC 28 switch at the commit epoch of chain B, one before / after it, always on, never on
+            let r28 = if tx == "relts" { match rng.below(5) { 0 => 0, 1 => h2 / el, 2 => h2 / el + 1, 3 => (h2 / el).saturating_sub(1), _ => 1000 } } else { 0 };
+            Scn { kind: "blk".into(), tx: tx.into(), warm: warm.into(), el, cl, far, mat, f, p, h1, h2, d, cu, dp, r28, ..Default::default() }
         } else {
             let tx = pool_tx;
             let cl = rng.range(1, 3);
